@@ -1280,6 +1280,57 @@ def rule_PL(run: Run) -> RuleResult:
     for c in run.node_classes():
         bad = [a for a in ("__slots__",) if a in c.class_assigns]
         res.add(f"{c.qualname}:default instance pickling applies", not bad, c.module.relpath, c.node.lineno, "no __slots__" if not bad else f"defines {bad}", nec)
+    # unpickling (and copy) makes the instance first and fills its dictionary afterwards; in between pickle asks it for ``__setstate__``.
+    # A class with a ``__getattr__`` answers that question itself — on an instance that has no attribute yet.  For an underscore name
+    # that the (absent) instance dictionary does not list it has to say AttributeError before it touches any instance state: a read
+    # of self.<attribute> or self[…] there arrives in __getattr__ again, and again, until RecursionError
+    n_ga = 0
+    for c in repo.classes.values():
+        ga = c.methods.get("__getattr__")
+        if c.module.name.startswith("labrea.mypy") or ga is None:
+            continue
+        n_ga += 1
+        pn = astu.param_names(ga)
+        key_p = pn[0] if pn else "key"
+
+        def known(term: str):
+            """Truth of a condition for (the name starts with an underscore, the instance dictionary is empty); None = not decided by that."""
+            if term.startswith("unop:Not(") and term.endswith(")"):
+                v = known(term[len("unop:Not("):-1])
+                return None if v is None else not v
+            if term.startswith("call:startswith(" + key_p + ",Const('_"):
+                return True
+            for op, val in (("cmp:NotIn(", True), ("cmp:In(", False)):
+                if term.startswith(op + key_p + ",") and ("call:get(attr:__dict__(self)," in term or "call:get(call:vars(self)," in term):
+                    return val
+            return None
+
+        def touches_state(term: str) -> bool:
+            import re as _re
+            return bool(_re.search(r"attr:(?!__dict__\b|__class__\b)[A-Za-z_0-9]+\(self\)", term)) or "getitem(self," in term or "call:getattr(self," in term
+
+        bad_ga = []
+        n_s = 0
+        for p in analyse_function(Ctx(repo), c.module, ga):
+            if any(known(cd[2] or "") is not None and known(cd[2] or "") != cd[1] for cd in p.conds):
+                continue        # not a path of the scenario
+            n_s += 1
+            first_touch = None
+            for e in p.events:
+                terms = [e.target.key() if e.target is not None else ""] + [a.key() for a in (e.args or [])]
+                if e.kind == "raise":
+                    break
+                if (e.kind == "call" and e.text == "getitem" and e.target is not None and e.target.key() == "self") or any(touches_state(t) for t in terms if e.kind != "raise"):
+                    first_touch = e.line
+                    break
+            rejected = p.status == "raise" and p.exc and p.exc[0].split(".")[-1] == "AttributeError"
+            if first_touch is not None or not rejected:
+                bad_ga.append(f"line {first_touch}: instance state is read" if first_touch is not None else f"the path ends with {p.status} {p.exc[0] if p.exc else ''}")
+        res.add(f"{c.qualname}.__getattr__:an underscore name the instance dictionary does not list is refused before any state is read", n_s > 0 and not bad_ga,
+                c.module.relpath, ga.lineno, (bad_ga[0] + " for a name like '__setstate__' on an instance whose dictionary is still empty (as pickle.loads and copy "
+                "ask for it): the read comes back to __getattr__ and recurses until RecursionError — no graph containing such an object can be loaded")
+                if bad_ga else f"{n_s} path(s) for that case, all raise AttributeError first", "datasets survive a pickle round trip (C20)")
+    res.count("getattr_classes", n_ga)
     return res
 
 
